@@ -264,6 +264,28 @@ def emptiness_tests(body, recv_ok):
     return out
 
 
+def enum_as_int(body, o, adt_suffix, names):
+    """variant name when operand `o` is a constant integer standing for a variant of the enum: the literal discriminant, or
+    `Enum::V as i32` (all constant leaves of its expression: one `<Enum>::V::{constant#0}`, the rest zeros), else None"""
+    k = const_operand(body, o)
+    if k is not None:
+        mm = re.match(r'^(?:const )?(-?\d+)_i32$', k['v'].strip())
+        return names.get(int(mm.group(1))) if mm else None
+    if o['k'] not in ('copy', 'move'): return None
+    e = T.expr(body, o, depth=10)
+    leaves = [x for x in T.expr_walk(e) if x[0] in ('const', 'place', 'local', 'call')]
+    if not leaves or any(x[0] != 'const' for x in leaves): return None
+    hit = None
+    for x in leaves:
+        v = x[1].strip()
+        mm = re.search(r'((?:\w+::)*\w+)::(\w+)::\{constant#\d+\}$', v)
+        if mm and (mm.group(1) == adt_suffix or mm.group(1).endswith('::' + adt_suffix) or adt_suffix.endswith('::' + mm.group(1))):
+            if hit is not None: return None
+            hit = mm.group(2)
+        elif not re.match(r'^(?:const )?0_i32$', v): return None
+    return hit if hit in names.values() else None
+
+
 class EnumProbes:
     """every inspection of one enum value in a body (ENUM-TEST idioms), usable as an assumption "the value is V":
        ('switch', bb, {V: target})         discriminant switch (matches! / match / if let)
@@ -301,13 +323,13 @@ class EnumProbes:
         for bi, st in body.stmts():
             rv = st['rv']
             if inb(bi) and rv['k'] == 'bin' and rv['op'] in ('Eq', 'Ne') and rv.get('ty') == 'i32' and not st['dst']['p']:
-                cs = [const_operand(body, o) for o in rv['ops']]
+                # RAW-FIELD idiom (prost keeps enums as i32): `c.equality == Equality::V as i32` / `== 1`; `V as i32` lowers to
+                # cast((const <Enum>::V::{constant#0} + 0).0)
+                ks = [enum_as_int(body, o, adt_suffix, names) for o in rv['ops']]
                 for i in (0, 1):
-                    if cs[i] is None or cs[1 - i] is not None: continue
-                    mm = re.match(r'^(?:const )?(-?\d+)_i32$', cs[i]['v'].strip())
-                    if not mm or int(mm.group(1)) not in names: continue
+                    if ks[i] is None or ks[1 - i] is not None: continue
                     if src_need is not None and not src_need(ctx.S.slice_operand(body, rv['ops'][1 - i])): continue
-                    K = names[int(mm.group(1))]
+                    K = ks[i]
                     self.probes.append(('value', bi, st['dst']['l'], {n: ((n == K) == (rv['op'] == 'Eq')) for n in allv}))
 
     def __bool__(self): return bool(self.probes)
